@@ -404,6 +404,15 @@ def rule_keys(ctx):
                 ctx.violation("C09.c", "info_schema", wfn, f"ON CONFLICT {c.get('conflict')}", m.loc(fnode),
                               f"the upsert into {tname} conflicts on {c.get('conflict')} but the table's primary key is {tables[tname]['pk']}: "
                               f"re-declaring a comment/length raises or leaves the stale row")
+            txt_all = text_of(sqlv)
+            valcols = [c_ for c_ in tables[tname]["cols"] if c_.upper() not in pk]
+            ok_up = bool(re.search(r"DO\s+UPDATE\s+SET", txt_all, re.I)) and all(
+                re.search(rf"{c_}\s*=\s*excluded\.{c_}", txt_all, re.I) for c_ in valcols) and not re.search(r"OR\s+IGNORE|DO\s+NOTHING", txt_all, re.I)
+            ctx.ob("C09.c", f"{wfn}: a re-declaration overwrites the stored {valcols} (upsert)", ok_up, m.loc(fnode))
+            if not ok_up:
+                ctx.violation("C09.c", "info_schema", wfn, "side-table write is not an overwriting upsert", m.loc(fnode),
+                              f"the write to {tname} does not overwrite {valcols} on conflict (ON CONFLICT .. DO UPDATE SET col = excluded.col): "
+                              f"after the object is declared again the metadata views keep the first declaration")
             # values tuple order == column order (first 3/4 key columns)
             i = sqlt.find_kw(toks, "VALUES", depth0=False)
             vals = [t for t in toks[i + 1:i + 12] if t.kind in ("str", "word")] if i >= 0 else []
